@@ -157,7 +157,7 @@ def twin_below(task: dict) -> str:
             v[i] = c
         b = rec.record_trace(f"{task['tid']}_in{val}", tt_b, full)
         out.append({"tid": b["tid"], "rel": "below", "perm": [], "neg": [], "val": v, "a": slim(a)[-1:], "b": slim(b)[-1:], "map": [1],
-                    "net": a["net"], "calls": ["full expansion + attractor sets"], "canonical": True})
+                    "net": a["net"], "calls": [o["op"] for o in full], "canonical": all(o["op"] in ("bfs", "dfs", "allsets") for o in full)})
         singles.append(b)
     return "\n".join(json.dumps(x) for x in out) + "\n##SINGLES##\n" + "\n".join(json.dumps(x) for x in singles)
 
